@@ -81,7 +81,7 @@ pub trait RollingValidFeature<T: IsNone>: Vec1View<T> {
         T::Inner: Number,
         f64: Cast<U>,
     {
-        let min_periods = min_periods.unwrap_or(window / 2).min(window);
+        let min_periods = min_periods.unwrap_or(window / 2).min(window).max(1);
         let mut sum = 0.;
         let mut n = 0;
         self.rolling_apply(
@@ -134,7 +134,7 @@ pub trait RollingValidFeature<T: IsNone>: Vec1View<T> {
         T::Inner: Number,
         f64: Cast<U>,
     {
-        let min_periods = min_periods.unwrap_or(window / 2).min(window);
+        let min_periods = min_periods.unwrap_or(window / 2).min(window).max(1);
         // 错位相减核心公式：
         // q_x(t) = 1 * new_element - alpha(q_x(t-1 without 1st element)) - 1st element * oma ^ (n-1)
         let mut q_x = 0.; // 权重的分子部分 * 元素，使用错位相减法来计算
@@ -192,7 +192,7 @@ pub trait RollingValidFeature<T: IsNone>: Vec1View<T> {
         T::Inner: Number,
         f64: Cast<U>,
     {
-        let min_periods = min_periods.unwrap_or(window / 2).min(window);
+        let min_periods = min_periods.unwrap_or(window / 2).min(window).max(1);
         let mut sum = 0.;
         let mut sum_xt = 0.;
         let mut n = 0;
